@@ -21,7 +21,7 @@ import os
 import re
 
 from simkit import forkenum, world
-from simkit.sim import Violation
+from simkit.sim import SimCrash, Violation
 
 from . import histsim, storesim
 
@@ -138,6 +138,8 @@ GUARDED = {
 
 def generate(rng, tier):
     lifted = sorted(g for g in GUARDED if rng.random() < 0.06)
+    if os.environ.get("C40_FORCE_LIFTED"):  # triage aid; unset in normal runs
+        lifted = sorted(os.environ["C40_FORCE_LIFTED"].split(","))
     src_fmt, tgt_fmt = rng.choice(FORMAT_PAIRS)
     bfmts = ["4", "4", "0.9", "0.9"] + ([] if RICH[src_fmt] else ["0.8"])
     bfmt = rng.choice(bfmts)
@@ -540,8 +542,12 @@ def _corrupt_trial(sim, mh, srepo, bad, desc, i, tgt_fmt, base, carried, strict,
     try:
         info = read_bundle(io.BytesIO(bad))
         info.install_revisions(tgt)
-    except Exception as e:  # noqa: BLE001 - any error is a detection
+    except (SimCrash, KeyboardInterrupt, SystemExit):
+        raise
+    except BaseException as e:  # noqa: B036 - any error is a detection (pyo3 PanicException is a BaseException)
         detected = type(e).__name__
+        if not isinstance(e, Exception):
+            sim.probe("detected_by_rust_panic")
     storesim.clear_caches()
     try:
         tgt.break_lock()
@@ -652,8 +658,11 @@ def _directive_part(sim, plan, mh, sb, src_fmt, tgt_fmt, strict):
     # corruption of the patch / bundle sections
     ntrial = 0
     for i, c in enumerate(md["corrupt"]):
-        lo = blob.find(b"# Begin patch\n")
-        mid = blob.find(b"# Begin bundle\n")
+        # section offsets from the end (the marker lines may also occur in the message)
+        blen = len(d.bundle) if d.bundle is not None else 0
+        plen = len(d.patch) if d.patch is not None else 0
+        mid = len(blob) - blen - len(b"# Begin bundle\n") if d.bundle is not None else -1
+        lo = (mid if mid >= 0 else len(blob)) - plen - len(b"# Begin patch\n") if d.patch is not None else -1
         if lo < 0 and mid < 0:
             continue
         sec = "patch" if (lo >= 0 and (c["region"] == "patch" or mid < 0)) else "bundle"
@@ -723,8 +732,12 @@ def _md_corrupt_trial(sim, mh, srepo, bad, desc, i, tgt_fmt, submit, carried, st
         status = d3.get_merge_request(tgt)[2]
         if status == "failed":
             detected = "patch-verification-failed"
-    except Exception as e:  # noqa: BLE001
+    except (SimCrash, KeyboardInterrupt, SystemExit):
+        raise
+    except BaseException as e:  # noqa: B036 - includes pyo3 PanicException (a BaseException)
         detected = type(e).__name__
+        if not isinstance(e, Exception):
+            sim.probe("detected_by_rust_panic")
     storesim.clear_caches()
     try:
         tgt.break_lock()
